@@ -1444,7 +1444,20 @@ func (e *Entry) Find(name string) *Entry {
 		}
 	}
 
+	// implied is the name of the shorthand choice member just entered while the
+	// implied case that stands for it (RFC 7950 7.9.2) has not been inserted
+	// yet: a following step of that name is the member itself, not a child
+	// of it.
+	implied := ""
 	for _, part := range parts {
+		if implied != "" {
+			_, name := getPrefix(part)
+			same := name == implied
+			implied = ""
+			if same {
+				continue
+			}
+		}
 		switch {
 		case e == nil:
 			return nil
@@ -1485,6 +1498,9 @@ func (e *Entry) Find(name string) *Entry {
 			case "", "..":
 				return nil
 			default:
+				if c := e.Dir[part]; e.Kind == ChoiceEntry && c != nil && c.Kind != CaseEntry {
+					implied = part
+				}
 				e = e.Dir[part]
 			}
 		}
